@@ -139,7 +139,8 @@ def benign(patch, props=None):
     assert rc == 0, o
     bad = {}
     try:
-        rc, o = sh("git apply %s" % patch, cwd=scratch)
+        patch = os.path.abspath(patch)
+        rc, o = sh("git apply %s || patch -p1 --no-backup-if-mismatch < %s" % (patch, patch), cwd=scratch)
         if rc != 0:
             print("patch does not apply:", o)
             return None
@@ -151,6 +152,10 @@ def benign(patch, props=None):
         sh("git worktree remove --force %s; git worktree prune" % scratch, cwd="/repo")
         sh("rm -rf %s %s" % (scratch, out))
     print("%-30s %s" % (name, "all checks exit 0" if not bad else "FALSE ALARM / UNDECIDED: " + json.dumps(bad, indent=1)))
+    rp = os.path.join(VERIF, "benign", "results.json")
+    res = json.load(open(rp)) if os.path.exists(rp) else {}
+    res[name] = "all %d checks exit 0" % len(props or claimed()) if not bad else "NOT ALL ZERO: %s" % sorted(bad)
+    json.dump(res, open(rp, "w"), indent=1, sort_keys=True)
     return bad
 
 
